@@ -213,6 +213,20 @@ class FunctionVerifier(object):
 
     # ------------------------------------------------------------------ discharge
     def discharge(self):
+        flt = getattr(self, 'ob_filter', None)
+        if flt is not None:
+            import re
+            inc = [re.compile(x) for x in flt.get('include', [])]
+            exc = [re.compile(x) for x in flt.get('exclude', [])]
+
+            def keep(ob):
+                short = ob.name[len(self.c.fid):]
+                if short.endswith('#cover') or short.endswith('#supported'):
+                    return True
+                if inc:
+                    return any(r.search(short) for r in inc)
+                return not any(r.search(short) for r in exc)
+            self.obligations = [ob for ob in self.obligations if keep(ob)]
         jobs = []
         for ob in self.obligations:
             if ob.name.endswith('#cover'):
